@@ -9,6 +9,7 @@ C12 line-protocol driver:  `lake env lean --run Sc3Verif/C12/Driver.lean < ops`
   q nextbar <x|->
   q ntog <num> <num> <num|->         num = i:<int> | f:<p/q>
   q playat <num> <num>
+  ticks d n                          (last line of a case) wake-up beats of a second routine yielding d, n times
 Each op prints  `<ok|v:p/q|E:err> | now beats tempo baseBarBeat beatsPerBar baseBar`.
 -/
 import Sc3Verif.C12.Model
@@ -71,28 +72,33 @@ def parseOp (ws : List String) : Option Op :=
   | ["q", "playat", q, p] => do some (.qPlayAt (← parseNum q) (← parseNum p))
   | _ => none
 
-partial def loop (h : IO.FS.Stream) (out : IO.FS.Stream) (st : Option St) : IO Unit := do
+partial def loop (h : IO.FS.Stream) (out : IO.FS.Stream) (st : Option St) (b0 : Rat := 0) : IO Unit := do
   let line ← h.getLine
   if line.isEmpty then return ()
   let ws := (line.trimAscii.toString.splitOn " ").filter (· ≠ "")
   match ws with
   | ["reset"] => out.putStrLn "reset"; loop h out none
+  | ["ticks", d, n] =>
+    match parseRat d, n.toNat? with
+    | some d, some n =>
+      out.putStrLn ("ticks " ++ " ".intercalate ((tickBeats b0 d n).map fmtRat)); loop h out st b0
+    | _, _ => out.putStrLn "bad-op"; loop h out st b0
   | ["init", t, b, s, n] =>
     match parseOptRat t, parseOptRat b, parseOptRat s, parseRat n with
     | some t, some b, some s, some n =>
       match TC.init t b s n with
       | .ok tc =>
         let st : St := { tc := tc, now := n, wakeBeat := beats tc n }
-        out.putStrLn ("ok" ++ snapshot st); loop h out (some st)
+        out.putStrLn ("ok" ++ snapshot st); loop h out (some st) st.beat
       | .error e => out.putStrLn s!"E:{e}"; loop h out none
     | _, _, _, _ => out.putStrLn "bad-init"; loop h out none
   | _ =>
     match st, parseOp ws with
     | some st, some op =>
       let (st', r) := step st op
-      out.putStrLn (fmtRes r ++ snapshot st'); loop h out (some st')
+      out.putStrLn (fmtRes r ++ snapshot st'); loop h out (some st') b0
     | none, _ => out.putStrLn "no-clock"; loop h out none
-    | _, none => out.putStrLn "bad-op"; loop h out st
+    | _, none => out.putStrLn "bad-op"; loop h out st b0
 
 def main : IO Unit := do
   loop (← IO.getStdin) (← IO.getStdout) none
